@@ -490,6 +490,27 @@ def test_pm2(lh, rng, quick):
             if style != "copy-mid":
                 add("data ends exactly at point %d (%s)" % (pt, style), pre + cross)
                 add("data ends exactly at point %d (%s), definitions omitted" % (pt, style), pre + cross, final_rebuild=False)
+    # the command that reaches the point, varied: a copy at distance 0 (a run of the last byte), 1, 63 and further back, of length 2, 40 and
+    # 256, ending exactly on the point, one byte before it, or crossing it
+    for pt, pos in ((1, 1024), (2, 2048), (3, 4096), (4, 8192)):
+        for dist in (0, 1, 63, 700):
+            for clen in (2, 40, 256):
+                for over in (0, -1, 1, clen // 2):
+                    if quick and (pt + dist + clen + over) % 3 and not (dist == 0 and over == 0):
+                        continue
+                    target = pos - clen + over
+                    pre = []
+                    tot = 0
+                    while tot < target:
+                        n = min(200, target - tot)
+                        if n < 2:
+                            pre.append(L(0x30 + tot % 10))
+                            tot += 1
+                        else:
+                            pre.append(C(rng.randrange(64), n))
+                            tot += n
+                    add("point %d reached by a copy of %d at distance %d, %+d past the point" % (pt, clen, dist, over),
+                        pre + [C(dist, clen), L(0x41), C(E.max_distance(pos + over), 9), L(0x42)], rebuild="always")
     # every offset class in every segment
     cm = [L(1)]
     tot = 1
